@@ -12,8 +12,8 @@ Statement clauses and where they are proved
 * "A set call that raises leaves the configuration unchanged."                          `set_failure_atomic`
   (false of the code before the `fix:` commit: `set_failure_not_atomic_without_rollback`)
 * "Inside a context, get returns the set values under either spelling"                  `get_after_assign`,
-                                                                                        `get_either_spelling`
-* merge/update precedence                                                               `update_new_leaf`, `merge_last_wins_top`
+                                                                                        `get_either_spelling(_path)`, `altName_invol`
+* merge/update precedence (later wins)                                                  `update_new_last_wins`, `merge_last_wins`
 -/
 namespace Dask.C17
 open Dask.Config
@@ -269,6 +269,190 @@ theorem get_either_spelling (k k2 : String) (v : Cfg) (d : Dict) (hr : Respell k
               simpa [dhas] using h2
             simp [h1, h2, this, hinv, dhas_dset_self]
       simp [getPath, hc, dget_dset_self]
+
+/-- Every name that does not mix `-` and `_` has its other spelling as a respelling (`altName` is an involution
+there), so the hypotheses `Respell` / `Respells` of the theorems below cover all-hyphen and all-underscore names. -/
+theorem respell_alt_of_pure (k : String)
+    (h : ¬ (Dask.PyStr.hasChar '_' k = true ∧ Dask.PyStr.hasChar '-' k = true)) : Respell k (altName k) := by
+  by_cases e : altName k = k
+  · exact Or.inl e
+  · refine Or.inr ⟨rfl, ?_⟩
+    -- `altName k` is pure as well, and `altName (altName k) = k`
+    exact altName_invol k h
+
+/-- the dictionary does not hold both spellings of `k` as two different keys -/
+def NoBoth (k : String) (d : Dict) : Prop := ¬ (dhas d k = true ∧ dhas d (altName k) = true ∧ altName k ≠ k)
+
+/-- After storing anything under the canonical name of `k`, every respelling of `k` canonicalises to that same key. -/
+theorem canon_respell (k k2 : String) (x : Cfg) (d : Dict) (hr : Respell k k2) (hboth : NoBoth k d) :
+    canonicalName k2 (dset d (canonicalName k d) x) = canonicalName k d := by
+  have same : canonicalName k (dset d (canonicalName k d) x) = canonicalName k d := by
+    unfold canonicalName
+    by_cases h1 : dhas d k = true
+    · simp [h1, dhas_dset_self]
+    · by_cases h2 : dhas d (altName k) = true
+      · simp only [h1, h2, if_true, Bool.false_eq_true, if_false]
+        by_cases hk : altName k = k
+        · simp [hk]
+        · have : dhas (dset d (altName k) x) k = dhas d k := by
+            simp [dhas, dget_dset_other _ _ _ _ hk]
+          simp [this, h1, dhas_dset_self]
+      · simp [h1, h2, dhas_dset_self]
+  rcases hr with rfl | ⟨h2, hinv⟩
+  · exact same
+  · subst h2
+    by_cases hk : altName k = k
+    · rw [hk]; exact same
+    · unfold canonicalName
+      by_cases h1 : dhas d k = true
+      · have h2 : dhas d (altName k) = false := by
+          cases hh : dhas d (altName k) with
+          | false => rfl
+          | true => exact absurd ⟨h1, hh, hk⟩ hboth
+        have : dhas (dset d k x) (altName k) = false := by
+          have hne : k ≠ altName k := fun e => hk e.symm
+          simp only [dhas, dget_dset_other _ _ _ _ hne]
+          simpa [dhas] using h2
+        simp [h1, this, hinv, dhas_dset_self]
+      · by_cases h2 : dhas d (altName k) = true
+        · simp [h1, h2, dhas_dset_self]
+        · have : dhas (dset d k x) (altName k) = false := by
+            have hne : k ≠ altName k := fun e => hk e.symm
+            simp only [dhas, dget_dset_other _ _ _ _ hne]
+            simpa [dhas] using h2
+          simp [h1, h2, this, hinv, dhas_dset_self]
+
+/-- no mapping along the path that `_assign(keys, …)` walks holds both spellings of the segment it is asked for -/
+def SpellOK : List String → Dict → Prop
+  | [], _ => True
+  | k :: ks, d => NoBoth k d ∧
+    (match dget d (canonicalName k d) with
+     | some (.node sub) => SpellOK ks sub
+     | _ => SpellOK ks [])
+
+/-- segment-wise respelling of a key path -/
+inductive Respells : List String → List String → Prop
+  | nil : Respells [] []
+  | cons {k k' : String} {ks ks' : List String} : Respell k k' → Respells ks ks' → Respells (k :: ks) (k' :: ks')
+
+/-- **get_either_spelling, any depth.** After a successful `_assign(keys, v)`, `get` along *any respelling* of the
+path (each segment in hyphen or underscore form, independently) returns `v` — provided no mapping on the way held
+both spellings of its segment beforehand. -/
+theorem get_either_spelling_path (keys : List String) : ∀ (keys' : List String) (v : Cfg) (d d' : Dict)
+    (path : List String) (record : Bool) (r : List Op),
+    assign keys v d path record = some (d', r) → Respells keys keys' → SpellOK keys d →
+    getPath keys' (.node d') = .ok v := by
+  induction keys with
+  | nil => intro keys' v d d' path record r h; simp [assign] at h
+  | cons k ks ih =>
+    intro keys' v d d' path record r h hr hok
+    cases hr with
+    | cons hk hrest =>
+      rename_i k' ks'
+      cases ks with
+      | nil =>
+        cases hrest
+        simp only [assign, Option.some.injEq, Prod.mk.injEq] at h
+        obtain ⟨hd, _⟩ := h
+        subst hd
+        simp [getPath, canon_respell k k' v d hk hok.1, dget_dset_self]
+      | cons k2 ks =>
+        simp only [assign] at h
+        have key_step : ∀ sub', d' = dset d (canonicalName k d) (.node sub') →
+            getPath ks' (.node sub') = .ok v → getPath (k' :: ks') (.node d') = .ok v := by
+          intro sub' hd hget
+          subst hd
+          simp only [getPath, canon_respell k k' (.node sub') d hk hok.1, dget_dset_self]
+          exact hget
+        have hok2 := hok.2
+        cases hg : dget d (canonicalName k d) with
+        | none =>
+          rw [hg] at h hok2
+          simp only [] at h hok2
+          cases ha : assign (k2 :: ks) v [] (path ++ [canonicalName k d]) false with
+          | none => rw [ha] at h; simp at h
+          | some res =>
+            rw [ha] at h
+            simp only [Option.some.injEq, Prod.mk.injEq] at h
+            exact key_step res.1 h.1.symm (ih ks' v [] res.1 _ false res.2 ha hrest hok2)
+        | some c =>
+          rw [hg] at h hok2
+          cases c with
+          | leaf _ => simp at h
+          | node sub =>
+            simp only [] at h hok2
+            cases ha : assign (k2 :: ks) v sub (path ++ [canonicalName k d]) record with
+            | none => rw [ha] at h; simp at h
+            | some res =>
+              rw [ha] at h
+              simp only [Option.some.injEq, Prod.mk.injEq] at h
+              exact key_step res.1 h.1.symm (ih ks' v sub res.1 _ record res.2 ha hrest hok2)
+
+/-- non-vacuity: `set({'a-b.c_d': 5})` on `{a_b: {x: 1}}`, read back as `a_b.c-d`, `a-b.c-d`, … -/
+example : SpellOK ["a-b", "c_d"] [("a_b", .node [("x", .leaf 1)])] ∧
+    Respells ["a-b", "c_d"] ["a_b", "c-d"] := by
+  refine ⟨⟨by unfold NoBoth; decide, ⟨by unfold NoBoth; decide, trivial⟩⟩, ?_⟩
+  exact .cons (Or.inr ⟨by decide, by decide⟩) (.cons (Or.inr ⟨by decide, by decide⟩) .nil)
+
+/-! ### update / merge: later wins -/
+
+theorem update_nil (p : Priority) (old : Dict) (dflt : Option Cfg) : update p old [] dflt = some old := by
+  rw [update.eq_def]
+
+theorem update_cons_leaf_new (old rest : Dict) (k0 : String) (c : Int) (dflt : Option Cfg) :
+    update .new old ((k0, .leaf c) :: rest) dflt = update .new (dset old (canonicalName k0 old) (.leaf c)) rest dflt := by
+  rw [update.eq_def]
+  simp
+
+theorem update_cons_node_none (p : Priority) (old rest sub : Dict) (k0 : String) :
+    update p old ((k0, .node sub) :: rest) none =
+      (update p (match dget old (canonicalName k0 old) with | some (.node s) => s | _ => []) sub none).bind
+        fun cur' => update p (dset old (canonicalName k0 old) (.node cur')) rest none := by
+  rw [update.eq_def]
+  simp only [truthy, Bool.false_eq_true, if_false]
+  cases update p (match dget old (canonicalName k0 old) with | some (.node s) => s | _ => []) sub none <;> simp
+
+/-- **update_new_last_wins.** With priority `"new"` (the default, also what `merge` uses), the last scalar item of
+`new` is what `get` returns afterwards, whatever `old` and the earlier items were. -/
+theorem update_new_last_wins (pre : Dict) (k : String) (c : Int) : ∀ (old d' : Dict),
+    update .new old (pre ++ [(k, .leaf c)]) none = some d' → getPath [k] (.node d') = .ok (.leaf c) := by
+  induction pre with
+  | nil =>
+    intro old d' h
+    simp only [List.nil_append] at h
+    rw [update_cons_leaf_new, update_nil] at h
+    simp only [Option.some.injEq] at h
+    subst h
+    exact get_after_assign [k] (.leaf c) old _ [] false [] (by simp [assign])
+  | cons kv pre ih =>
+    intro old d' h
+    obtain ⟨k0, v0⟩ := kv
+    simp only [List.cons_append] at h
+    cases v0 with
+    | leaf c0 =>
+      rw [update_cons_leaf_new] at h
+      exact ih _ d' h
+    | node sub =>
+      rw [update_cons_node_none] at h
+      cases hu : update .new (match dget old (canonicalName k0 old) with | some (.node s) => s | _ => []) sub none with
+      | none => rw [hu] at h; simp at h
+      | some cur' =>
+        rw [hu] at h
+        simp only [Option.bind_some] at h
+        exact ih _ d' h
+
+/-- `merge(*dicts)`: the last scalar item of the last dictionary wins. -/
+theorem merge_last_wins (ds : List Dict) (pre : Dict) (k : String) (c : Int) (d' : Dict)
+    (h : merge (ds ++ [pre ++ [(k, .leaf c)]]) = some d') : getPath [k] (.node d') = .ok (.leaf c) := by
+  unfold merge at h
+  rw [List.foldl_append] at h
+  simp only [List.foldl_cons, List.foldl_nil] at h
+  cases hacc : List.foldl (fun acc d => acc.bind fun r => update .new r d none) (some []) ds with
+  | none => rw [hacc] at h; simp at h
+  | some r =>
+    rw [hacc] at h
+    simp only [Option.bind_some] at h
+    exact update_new_last_wins pre k c r d' h
 
 /-- the hypotheses are satisfiable with a genuinely different spelling -/
 example : Respell "a-b" "a_b" ∧ altName "a-b" ≠ "a-b" := ⟨Or.inr ⟨by decide, by decide⟩, by decide⟩
